@@ -743,8 +743,30 @@ impl From<(ASN1Value, Option<ExtensionMarker>)> for SubtypeElements {
 impl From<Constraint> for SubtypeElements {
     fn from(value: Constraint) -> Self {
         match value {
-            Constraint::Subtype(set) => Self::SizeConstraint(Box::new(set.set)),
+            Constraint::Subtype(mut set) => {
+                // `SIZE ((1..4), ...)`: the extension marker that follows the element set
+                // is recorded on the last element, where `SIZE (1..4, ...)` puts it
+                if set.extensible {
+                    set.set.mark_extensible();
+                }
+                Self::SizeConstraint(Box::new(set.set))
+            }
             _ => unreachable!(),
+        }
+    }
+}
+
+impl ElementOrSetOperation {
+    /// Records an extension marker on the last element of the element set
+    fn mark_extensible(&mut self) {
+        match self {
+            ElementOrSetOperation::Element(
+                SubtypeElements::SingleValue { extensible, .. }
+                | SubtypeElements::ValueRange { extensible, .. }
+                | SubtypeElements::ContainedSubtype { extensible, .. },
+            ) => *extensible = true,
+            ElementOrSetOperation::Element(_) => (),
+            ElementOrSetOperation::SetOperation(s) => s.operant.mark_extensible(),
         }
     }
 }
